@@ -1932,6 +1932,8 @@ class Tensor:
 
         if not _track.TRACK_GRAPH:
             self.data.shape = newshape
+            # a gradient held by the tensor describes its old shape
+            self.null_grad()
             return
 
         if newshape == self.shape:
